@@ -222,5 +222,7 @@ RuleSeq(q, W) ==
 \* rule inference: one instance per satisfying assignment
 HeadOf(q, W, env) == [cls |-> q.head.cls,
                       f |-> [k \in 1..Len(q.head.args) |-> Val(q.head.args[k].e, env, q, W)]]
-InferSeq(q, W) == LET s == SatSeq(q, W) IN [i \in 1..Len(s) |-> HeadOf(q, W, s[i])]
+\* a constructor argument that is a sub-query restricts the assignments to the sub-query's solutions
+HeadSides(q, W, env) == \A k \in 1..Len(q.head.args) : Side(q.head.args[k].e, env, q, W)
+InferSeq(q, W) == LET s == SelectSeq(SatSeq(q, W), LAMBDA env : HeadSides(q, W, env)) IN [i \in 1..Len(s) |-> HeadOf(q, W, s[i])]
 =========================================================================
